@@ -271,8 +271,8 @@ def check_solver(acc, n, edges):
     except Exception as e:
         import traceback
         tb = traceback.extract_tb(e.__traceback__)
-        acc.violation("solve", "TimeReversedSolver.solve", "raises-%s@%s" % (type(e).__name__, tb[-1].name if tb else "?"), case,
-                      "a circuit", repr(e)[:200])
+        acc.violation("solve", "TimeReversedSolver.solve", "raises-%s" % type(e).__name__, case,
+                      "a circuit", "%s in %s" % (repr(e)[:200], tb[-1].name if tb else "?"))
         return
     if circ.n_emitters != want:
         acc.violation("emitters", "TimeReversedSolver.solve", "circuit-emitter-count-not-max-height", case, want, circ.n_emitters)
